@@ -864,6 +864,21 @@ class CommandPipeline:
             for ch in getattr(p, "pipe_channels", ()):
                 ch.close()
 
+    def _release_connecting_pipes(self):
+        """Closes the shell's own copies of the pipe ends that connect
+        child processes.  A background pipeline is never ``end()``-ed, so
+        without this the shell keeps both ends open until the job object
+        is dropped and the downstream command never sees EOF on its stdin.
+        Ends used by in-process stages (threads) are left to those threads.
+        """
+        for i, (s, p) in enumerate(zip(self.specs[:-1], self.procs[:-1], strict=False)):
+            nxt = self.procs[i + 1] if i + 1 < len(self.procs) else None
+            for ch in s.pipe_channels:
+                if isinstance(p, subprocess.Popen):
+                    ch.close_writer()
+                if isinstance(nxt, subprocess.Popen):
+                    ch.close_reader()
+
     def _close_proc(self):
         """Closes last proc's stdout."""
         s = self.spec
